@@ -741,7 +741,16 @@ func (w *world) exec(line string) (res stepResult) {
 			}
 		}
 		if !(sum <= 1+1e-12) {
-			res.monitor = fmt.Sprintf("strategy probabilities sum to %v > 1", sum)
+			// In exact arithmetic all n entries of the iterated vector sum to one
+			// (C07ISC.power_iteration_sum_one), so the n-1 returned probabilities sum to
+			// 1 - p(largest) (C07ISC.returned_sum_is_one_minus_largest): "sum > 1" is the same
+			// event as "the largest size class's entry is negative" and is judged like a negative
+			// entry: a violation up to maximum_convergence_error 0.01, information far above it.
+			if w.eps > 0.0100001 && sum < 2 {
+				res.counters = append(res.counters, "info-negative-probability-with-large-convergence-error")
+			} else {
+				res.monitor = fmt.Sprintf("strategy probabilities sum to %v > 1", sum)
+			}
 		}
 		if len(w.calc.last) > len(classes) {
 			res.monitor = fmt.Sprintf("%d strategies for %d size classes", len(w.calc.last), len(classes))
